@@ -49,12 +49,12 @@ var out = bufio.NewWriterSize(os.Stdout, 1<<20)
 const defaultTable = "EncryptionKey" // documented default table name (docs/Metastore.md)
 
 type backend struct {
-	ms     appencryption.Metastore
-	take   func() string // canonical requests since the last call
-	setLag func(int)
-	fail   func()
+	ms        appencryption.Metastore
+	take      func() string // canonical requests since the last call
+	setLag    func(int)
+	fail      func()
 	failPlain func()
-	close  func()
+	close     func()
 }
 
 func hx(s string) string { return "x" + hex.EncodeToString([]byte(s)) }
